@@ -105,7 +105,7 @@ def contraction_cases(tier, seed):
     for dims in dims_alphabet(tier):
         n = len(dims)
         N = ti.prod(dims)
-        ents = ("sym", "pow", "int", "intB", "float", "complex", "u8", "i8", "bool", "nearherm", "ctiny", "cscaled")
+        ents = ("sym", "pow", "int", "intB", "float", "complex", "u8", "i8", "bool", "nearherm", "ctiny", "cscaled", "neardiag", "nearzero")
         if n >= 5:
             ents = ("pow", "complex")
         elif N > 27:
